@@ -14,8 +14,9 @@ mk('C09-samplefunc-scales-arg', [('teneva/sample_func.py', "        A = teneva.c
 mk('C09-funcint-overwrite', [('teneva/func.py', "            A[k] = dct(y, 1, axis=1) / (y.shape[1] - 1)\n", "            A[k] = dct(y, 1, axis=1, overwrite_x=True) / (y.shape[1] - 1)\n")], 'C09', 'func_int lets the DCT overwrite its input')
 mk('C09-sample-unsert-view', [('teneva/sample.py', "    p = Y[0] @ phi[1]\n    p = p.flatten()\n", "    p = (Y[0] @ phi[1]).reshape(-1) if Y[0].shape[2] > 1 else Y[0].reshape(-1)\n")], 'C09', 'for rank-1 first cores the probability vector is a view of the core: += unsert writes into the argument')
 mk('C09-svd-nocopy', [('teneva/svd.py', "    Z = Y_full.copy()\n", "    Z = Y_full\n")], 'C09', 'svd without the defensive copy (reshape + skeleton never write): expected to survive unless something writes')
-mk('C09-getmany-view-first', [('teneva/act_one.py', "def mean(Y, P=None, norm=True):", "def mean(Y, P=None, norm=True):"), ('teneva/transformation.py', "    Z = Y[0]\n    for G in Y[1:]:\n        Z = np.tensordot(Z, G, 1)\n", "    Z = Y[0]\n    for G in Y[1:]:\n        Z = np.tensordot(Z, G, 1) if G.shape != (1, 1, 1) else Z.reshape(Z.shape + (1,))\n")], 'C09', 'full() skips trivial trailing cores of mode size 1: for shapes like [n,1] the result is a view of the first core')
+mk('C09-getmany-view-first', [('teneva/act_one.py', "def mean(Y, P=None, norm=True):", "def mean(Y, P=None, norm=True):"), ('teneva/transformation.py', "    for G in Y[1:]:\n        Z = np.tensordot(Z, G, 1)\n", "    for G in Y[1:]:\n        Z = np.tensordot(Z, G, 1) if G.shape != (1, 1, 1) else Z.reshape(Z.shape + (1,))\n")], 'C09', 'full() skips trivial trailing cores of mode size 1: for shapes like [n,1] the result is a view of the first core')
 mk('C09-accuracy-data-asarray-sort', [('teneva/data.py', "    y_data = np.asanyarray(y_data, dtype=float)\n", "    y_data = np.asanyarray(y_data, dtype=float)\n    if e_trunc is not None:\n        y_data -= 0.0\n        I_data.sort(axis=0)\n        I_data = I_data\n")], 'C09', 'with e_trunc the index batch is sorted in place')
-mk('C09-memo-by-id', [(T, "def full(Y):", "_FULL_MEMO = {}\n\n\ndef full(Y):"), (T, "    if Z.shape[-1] == 1:\n        Z = Z[..., 0]\n\n    return Z\n", "    if Z.shape[-1] == 1:\n        Z = Z[..., 0]\n\n    key = tuple(G.tobytes() for G in Y)\n    if key in _FULL_MEMO:\n        return _FULL_MEMO[key]\n    _FULL_MEMO[key] = Z\n    if len(_FULL_MEMO) > 8:\n        _FULL_MEMO.pop(next(iter(_FULL_MEMO)))\n    return Z\n")], 'C09', 'full() memoises its result: two calls hand out the same array, a later write to one result shows in the other')
 
 mk('C09-orthleft-shallow', [(T, "    Z = Y if inplace else teneva.copy(Y)\n\n    r1, n1, r2 = Z[i].shape\n", "    Z = Y if inplace else list(Y)\n\n    r1, n1, r2 = Z[i].shape\n")], 'C09', 'orthogonalize_left(inplace=False) copies the list only: untouched cores of the result are the argument cores')
+
+mk('C09-full-onecore-view', [(T, "    Z = Y[0] if len(Y) > 1 else Y[0].copy()\n", "    Z = Y[0]\n")], 'C09', 'the repaired defect: full() of a one-core tensor returns a view of the core')
